@@ -15,6 +15,40 @@ class MyBytes(bytes):
     pass
 
 
+class MyStr(str):
+    pass
+
+
+class MyDict(dict):
+    def __missing__(self, k):
+        raise KeyError(k)
+
+
+def retyped(kw):
+    """the same expectations in other Python types of the same value: str subclasses, tuples instead of lists, plain ints instead of enum members, other mappings"""
+    import types, collections
+    def walk(v, f_str, f_list):
+        if isinstance(v, str):
+            return f_str(v)
+        if isinstance(v, (list, tuple)):
+            return f_list([walk(x, f_str, f_list) for x in v])
+        if isinstance(v, dict):
+            return {k: walk(x, f_str, f_list) for k, x in v.items()}
+        return v
+    out = {}
+    out["str subclasses"] = {k: walk(v, MyStr, list) for k, v in kw.items()}
+    out["tuples for lists"] = {k: walk(v, str, tuple) for k, v in kw.items()}
+    if "supported_pub_key_algs" in kw:
+        out["plain integers for algorithm ids"] = dict(kw, supported_pub_key_algs=[int(a) for a in kw["supported_pub_key_algs"]])
+        out["algorithm ids as enum members in a tuple, reversed"] = dict(kw, supported_pub_key_algs=tuple(reversed(kw["supported_pub_key_algs"])))
+    if "pem_root_certs_bytes_by_fmt" in kw:
+        m = kw["pem_root_certs_bytes_by_fmt"]
+        out["roots in a read-only mapping"] = dict(kw, pem_root_certs_bytes_by_fmt=types.MappingProxyType({k: list(v) for k, v in m.items()}))
+        out["roots in an OrderedDict of tuples"] = dict(kw, pem_root_certs_bytes_by_fmt=collections.OrderedDict((k, tuple(v)) for k, v in m.items()))
+        out["roots in a dict subclass"] = dict(kw, pem_root_certs_bytes_by_fmt=MyDict({MyStr(k): list(v) for k, v in m.items()}))
+    return out
+
+
 def looser_auth(pol):
     out = []
     if pol.require_uv:
@@ -142,6 +176,13 @@ def run(tier, seed):
             if not same:
                 chk.violation(f"input form {k} gives another outcome than the dict form ({label})", f"forms {k} {label.split('+')[0]}",
                               {"entry": "verify_authentication_response", "label": label, "outcomes": {x: y[:100] for x, y in outs.items()}, "policy": pol.describe(), "credential": d0})
+        if n_case % 3 == 0 or label.startswith("baseline"):
+            for tname, kw2 in retyped(pol.kwargs()).items():
+                o2 = impl.outcome(lambda: webauthn.verify_authentication_response(credential=copy.deepcopy(d0), **kw2), impl.pr_verified_auth)
+                chk.evals += 1
+                if o2 != base:
+                    chk.violation(f"the same expectations given as {tname} give another outcome ({label}): {o2[:50]} instead of {base[:50]}", f"argument-types-auth {tname} {label.split('+')[0]}",
+                                  {"entry": "verify_authentication_response", "label": label, "argument_types": tname, "outcome": o2[:200], "reference": base[:200], "policy": pol.describe(), "credential": d0})
         for lname, pol2 in looser_auth(pol):
             o2 = va(pol2, d)
             chk.evals += 1
@@ -204,6 +245,14 @@ def run(tier, seed):
             if not same:
                 chk.violation(f"input form {k} gives another outcome than the dict form ({label})", f"forms-reg {k} {label.split('+')[0].split('/')[0]}",
                               {"entry": "verify_registration_response", "label": label, "outcomes": {x: y[:100] for x, y in outs.items()}, "policy": pol.describe(), "credential": d0})
+        if zlib.crc32(label.encode()) % 3 == 0 or label.startswith("baseline"):
+            for tname, kw2 in retyped(pol.kwargs()).items():
+                with impl.substituted(pol.substitute, pol.now):
+                    o2 = impl.outcome(lambda: webauthn.verify_registration_response(credential=copy.deepcopy(d0), **kw2), impl.pr_verified_reg)
+                chk.evals += 1
+                if o2 != base:
+                    chk.violation(f"the same expectations given as {tname} give another outcome ({label}): {o2[:50]} instead of {base[:50]}", f"argument-types-reg {tname} {label.split('+')[0].split('/')[0]}",
+                                  {"entry": "verify_registration_response", "label": label, "argument_types": tname, "outcome": o2[:200], "reference": base[:200], "policy": pol.describe(), "credential": d0})
         for lname, pol2 in looser_reg(pol):
             o2 = vr(pol2, d)
             chk.evals += 1
